@@ -174,7 +174,22 @@ def run_floats(pid, tier, seed):
     return res
 
 
+def run_trees(pid, tier, seed):
+    vh = vlib.build_harness()
+    r1, states_path, states = parse_r1("quick")
+    walks, nwalks = spec_walks(tier, seed)
+    g = vlib.run_gen(vh, "trees", tier, seed, states=states_path, walks=walks)
+    res = {"r1": r1, "gens": [g]}
+    if "hang" in g:
+        res["hang"] = g["hang"]
+        return res
+    bads, consumed, notes = vlib.validate("TraceTrees.tla", "TraceTrees.cfg", g["files"], xmx="3g")
+    res.update(bads=bads, consumed=consumed, notes=notes)
+    return res
+
+
 FAMILIES = {
+    "trees": {"run": run_trees},
     "floats": {"run": run_floats},
     "values": {"run": run_values},
     "parse": {"run": run_parse},
@@ -314,6 +329,21 @@ CHECKS.update({
                           "algebra is model-checked exhaustively on a 4-bit/3-bit format. No exhaustiveness is claimed for binary64.",
             "level_note": "TLC is used as an exact calculator here, not as a state-space explorer; a one-bit change deep in a table row may be "
                           "visible only on inputs nobody can enumerate; conversion-path counts (hook H1) are reported in the evidence"},
+})
+
+CHECKS.update({
+    "C03": {"family": "trees", "level": "model_checking",
+            "rule": "documents: tree shapes (duplicate keys in raw and escaped spelling, empty containers, big-then-small siblings, numbers "
+                    "incl. overflow, invalid UTF-8, malformed variants), (reachable states of the TLA+ machine x byte-class members x "
+                    "completion), depth 9999/10000/10001 in 6 array/object mixtures with the real constant, TLC random walks, corpus, random "
+                    "documents with mutations; each through ReadValue, a reused ValueReader, ReadObject, ReadArray and json.Unmarshal; "
+                    "distinct = distinct input; non-trivial = longer than one byte",
+            "technique": "TLA+ recursive-descent grammar producing value trees (R1: equals the pushdown machine) + TLC tree matching of recorded decodes, float leaves by the rounding relation (R3)",
+            "level_text": "The value tree (last duplicate wins, decoded strings and keys, numbers as literals) is computed by TLC from "
+                          "JSONGrammar for every recorded call and matched against the canonicalised result; success is required exactly "
+                          "when the grammar accepts, depth <= 10000 and no number overflows; encoding/json's tree must match after the "
+                          "specification's UTF-8 replacement.",
+            "level_note": MC_NOTE + "; trees deeper than 200 are checked for success/offset only (recorded as 'big')"},
 })
 
 NOT_APPLICABLE = {}
